@@ -40,7 +40,7 @@ const (
 
 // Params selects the clock implementation and the action alphabet.
 type Params struct {
-	Mem       bool   `json:"mem"`       // mockRepo + MemClock instead of GoGitRepo + PersistedClock
+	Mem       bool   `json:"mem"` // mockRepo + MemClock instead of GoGitRepo + PersistedClock
 	Seed      uint64 `json:"seed"`
 	Edit2     bool   `json:"edit2"`     // two-author (two-pack) commits
 	DelSingle bool   `json:"delsingle"` // also delete only one of the two clock files
@@ -440,6 +440,9 @@ func (m *model) localMax() (edit, create uint64, dags []*refmodel.DAG) {
 
 func (m *model) Actions() []string {
 	var out []string
+	if m.repo == nil {
+		return nil
+	}
 	if m.p.MaxNew == 0 || m.nNew < m.p.MaxNew {
 		out = append(out, "newbug")
 	}
@@ -824,6 +827,10 @@ func (m *model) identMut(s *step) string {
 // ---- key and state oracle ---------------------------------------------------------------------
 
 func (m *model) Key() (string, error) {
+	if m.repo == nil {
+		// the repository could not be opened again (reported as a violation): a dead end
+		return fmt.Sprintf("closed/%d/%d/%d", m.seenMax, m.nIdent, m.nNew), nil
+	}
 	live, err := m.liveClocks()
 	if err != nil {
 		return "", err
